@@ -885,21 +885,37 @@ fn struct_monitor(rep: &mut Report, fe: &str, text: &str, dict: &std::sync::Arc<
         let n = doc.get_source().len();
         let spans: Vec<String> = doc.get_tokens().iter().map(|t| format!("{} {}", t.span.start, t.span.end)).collect();
         let toks_inside = doc.get_tokens().iter().all(|t| t.span.start <= t.span.end && t.span.end <= n);
+        // phase 7: the lexer facts imported from C02 that discharge SentenceCapitalization's premise — every token of a
+        // plain-English document is non-empty (the tokens tile the text), in every front-end every Word token is non-empty
+        let empty_word = doc.get_tokens().iter().any(|t| t.kind.is_word() && t.span.start >= t.span.end);
+        let empty_plain = fe == "plain" && doc.get_tokens().iter().any(|t| t.span.start >= t.span.end);
+        // ... and the guard the scanner records (struct_word_guards): a SentenceCapitalization lint is the first character of a Word token
+        let mut cap_off_word = false;
         let mut cases: Vec<(String, String)> = vec![];
         for (name, rule) in real_struct_rules(dict).iter_mut() {
             // at most the first two and the last lint of a rule per document (Spaces / SpellCheck make hundreds; the model
             // answers one line per lint over the whole token list)
             let ls = rule.lint(&doc);
             let k = ls.len();
+            if *name == "SentenceCapitalization" {
+                for l in &ls {
+                    if !(l.span.end == l.span.start + 1 && doc.get_tokens().iter().any(|t| t.kind.is_word() && t.span.start == l.span.start)) {
+                        cap_off_word = true;
+                    }
+                }
+                if k > 0 {
+                    cases.push((String::new(), String::new()));      // marker: the rule fired on this document (bucket below)
+                }
+            }
             for (i, l) in ls.iter().enumerate() {
                 if i < 2 || i + 1 == k {
                     cases.push((name.to_string(), format!("W {name} {} {} | {}", l.span.start, l.span.end, spans.join(" "))));
                 }
             }
         }
-        (cases, toks_inside)
+        (cases, toks_inside, empty_word, empty_plain, cap_off_word)
     });
-    let Ok((cases, toks_inside)) = r else {
+    let Ok((cases, toks_inside, empty_word, empty_plain, cap_off_word)) = r else {
         rep.count("struct:document_or_rule_panicked(C01's business)");
         return;
     };
@@ -908,7 +924,26 @@ fn struct_monitor(rep: &mut Report, fe: &str, text: &str, dict: &std::sync::Arc<
         rep.fail("document_token_outside_source", "a token of the document lies outside the source (token invariant, C02)".into(),
             json!({"kind": "premise", "frontend": fe, "text": text}));
     }
+    rep.monitor("word_token_empty", if empty_word { 1 } else { 0 });
+    if empty_word {
+        rep.fail("word_token_empty", "a Word token of the document is empty (C02: zero-width tokens are Newline / ParagraphBreak only) — premise of SentenceCapitalization's with_len(1)".into(),
+            json!({"kind": "premise", "frontend": fe, "text": text}));
+    }
+    rep.monitor("plain_document_token_empty", if empty_plain { 1 } else { 0 });
+    if empty_plain {
+        rep.fail("plain_document_token_empty", "a token of a plain-English document is empty (C02: the tokens tile the text)".into(),
+            json!({"kind": "premise", "frontend": fe, "text": text}));
+    }
+    rep.monitor("sentence_capitalization_lint_not_first_char_of_word", if cap_off_word { 1 } else { 0 });
+    if cap_off_word {
+        rep.fail("sentence_capitalization_lint_not_first_char_of_word", "a SentenceCapitalization lint is not the first character of a Word token (the is_word() guard recorded in struct_word_guards)".into(),
+            json!({"kind": "premise", "frontend": fe, "text": text}));
+    }
     for (name, case) in cases {
+        if name.is_empty() {
+            rep.count(&format!("sentence_capitalization_fired:{}", if fe == "plain" { "plain" } else { "other front-end" }));
+            continue;
+        }
         rep.count(&format!("W:{name}"));
         rep.case(&case, "yes");
     }
